@@ -630,6 +630,12 @@ func (in *Interp) newCoroutine(fn Value) *Coroutine {
 	return co
 }
 
+// ResumeNew creates a coroutine for fn and resumes it once (what a host does
+// with NewThread + Resume).
+func (in *Interp) ResumeNew(fn Value, args []Value) (bool, []Value) {
+	return in.Resume(in.newCoroutine(fn), args)
+}
+
 func (in *Interp) Resume(co *Coroutine, args []Value) (bool, []Value) {
 	if co.status != "suspended" {
 		if co.status == "dead" {
